@@ -310,7 +310,7 @@ _V1_C17 = [_V1_C17RUN, _V1_BBRUN, _v1p("^VerifC17_step_", dict(n=[1, 2, 3]), dic
 PROPS["C01"]["groups"] += [_V1_STEP_A, _V1_STEP_B, _V1_PRIOR, _V1_MAIN, _V1_NEW, _V1_SIMPLE] + _V1_C17
 PROPS["C02"]["groups"] += [_V1_STEP_A, _V1_STEP_B, _V1_PRIOR, _V1_MAIN, _V1_SIMPLE] + _V1_C17
 PROPS["C05"]["groups"] += [_V1_ROUND, _V1_SAT3, _V1_NEW, _V1_SORTL]
-PROPS["C06"]["groups"] += [_V1_ROUND, _v1p("^VerifC06_progress_two_rounds$", dict(n=[2, 3], Hmax=[3]), dict(n=[2, 3, 4], Hmax=[4])), _V1_MAIN, _V1_Z6, _v1p("^VerifC01_step_calcTactic$", dict(n=[1, 2, 3]), dict(n=[1, 2, 3, 4])), _v1p("^VerifC01_step_feedback$", dict(n=[1, 2], J=[2]), dict(n=[1, 2, 3], J=[3]))]
+PROPS["C06"]["groups"] += [_V1_ROUND, _v1p("^VerifC06_progress_two_rounds$", dict(n=[2, 3], Hmax=[3]), dict(n=[2, 3, 4], Hmax=[4])), _V1_MAIN, _V1_Z6, _V1_BBRUN, _v1p("^VerifC01_step_calcTactic$", dict(n=[1, 2, 3]), dict(n=[1, 2, 3, 4])), _v1p("^VerifC01_step_feedback$", dict(n=[1, 2], J=[2]), dict(n=[1, 2, 3], J=[3]))]
 PROPS["C07"]["groups"] += [_V1_MAIN, _V1_PROMPT, _V1_Z7, _V1_SIMPLE, _V1_C17RUN, _V1_BBRUN, _v1p("^VerifC01_step_io$", dict(n=[1, 2, 3], J=[2]), dict(n=[1, 2, 3, 4], J=[3]))]
 PROPS["C15"]["groups"] += [_V1_STEP_A, _V1_STEP_B, _V1_MAIN, _V1_NEW, _V1_RFAULT, _V1_RUNFAULT, _V1_SIMPLE, _V1_C17[2], _V1_SORTL]  # the divisions made by AddInput / RemoveInput obey the argument contract too
 PROPS["C16"]["groups"] += [_V1_SIMPLE]
